@@ -377,6 +377,102 @@ pub fn worker(args: &[String]) -> i32 {
     })
 }
 
+/// the command-line driver over a newline-delimited query file read in chunks: every history of 1-4 rows over {answerable query,
+/// unreachable destination, a row that is not JSON, a blank row} x chunk size 1-3 x persistence policy. Every readable row gets
+/// exactly one response in the output file, wherever the unreadable rows fall and however the rows are cut into chunks
+fn cli_histories(tier: Tier, st: &mut Stats, only: Option<&Value>) {
+    use routee_compass::app::cli::cli_args::CliArgs;
+    use routee_compass::app::cli::run::command_line_runner;
+    let scratch = Scratch::new("c06cli");
+    let dir = scratch.path.join("app");
+    let spec = AppSpec::simple(base_net());
+    let cfg = match spec.write_files(&dir) {
+        Ok(c) => c,
+        Err(e) => {
+            st.violation("harness", "app_files", 0, || e.clone(), || json!({}));
+            return;
+        }
+    };
+    let conf_path = dir.join("config.json");
+    if let Err(e) = std::fs::write(&conf_path, serde_json::to_string(&cfg).unwrap_or_default()) {
+        st.violation("harness", "app_files", 0, || e.to_string(), || json!({}));
+        return;
+    }
+    let kinds = ["answerable", "unreachable", "not_json", "blank"];
+    let row = |k: usize, pos: usize| -> String {
+        match k {
+            0 => json!({"origin_vertex": 0, "destination_vertex": 4, "qid": format!("r{}", pos)}).to_string(),
+            1 => json!({"origin_vertex": 4, "destination_vertex": 0, "qid": format!("r{}", pos)}).to_string(),
+            2 => "{\"origin_vertex\": 0, \"destination_vertex\"".to_string(),
+            _ => String::new(),
+        }
+    };
+    let mut histories: Vec<Vec<usize>> = vec![];
+    let mut layer: Vec<Vec<usize>> = vec![vec![]];
+    for _ in 0..4 {
+        let mut next = vec![];
+        for h in layer.iter() {
+            for k in 0..kinds.len() {
+                let mut h2 = h.clone();
+                h2.push(k);
+                next.push(h2);
+            }
+        }
+        histories.extend(next.iter().cloned());
+        layer = next;
+    }
+    let mut runs = 0u64;
+    for (hi, h) in histories.iter().enumerate() {
+        for chunk in 1..=3i64 {
+            for (pi, persist) in ["persist_response_in_memory", "discard_response_from_memory"].iter().enumerate() {
+                if let Some(o) = only {
+                    if o["rows"] != json!(h.iter().map(|k| kinds[*k]).collect::<Vec<_>>()) || o["chunksize"] != json!(chunk) || o["persistence"] != json!(persist) {
+                        continue;
+                    }
+                } else if tier == Tier::Quick && h.len() == 4 && (hi + chunk as usize + pi) % 4 != 0 {
+                    continue;
+                }
+                runs += 1;
+                st.states += 1;
+                st.evaluations += 1;
+                st.transitions += h.len() as u64;
+                st.traces += 1;
+                if h.len() > chunk as usize {
+                    st.nontrivial += 1;
+                }
+                let qfile = scratch.path.join(format!("q_{}_{}_{}.jsonl", hi, chunk, pi));
+                let ofile = scratch.path.join(format!("o_{}_{}_{}.jsonl", hi, chunk, pi));
+                let _ = std::fs::remove_file(&ofile);
+                let text: String = h.iter().enumerate().map(|(pos, k)| row(*k, pos) + "\n").collect();
+                let _ = std::fs::write(&qfile, text);
+                let run_cfg = json!({"parallelism": 2, "response_persistence_policy": persist, "response_output_policy": {"type": "file", "filename": ofile.to_str().unwrap_or(""), "format": {"type": "json", "newline_delimited": true}, "file_flush_rate": 1}});
+                let args = CliArgs { config_file: conf_path.to_str().unwrap_or("").to_string(), query_file: qfile.to_str().unwrap_or("").to_string(), chunksize: Some(chunk), newline_delimited: true };
+                let case = || json!({"cli": true, "rows": h.iter().map(|k| kinds[*k]).collect::<Vec<_>>(), "chunksize": chunk, "persistence": persist});
+                let comp = format!("command_line.chunked.{}", if pi == 0 { "persist" } else { "discard" });
+                match guarded(|| command_line_runner(&args, None, Some(&run_cfg)).map_err(|e| e.to_string())) {
+                    Err(p) => st.violation(&comp, "no_panic", h.len() as u64, || p.clone(), case),
+                    Ok(Err(e)) => st.violation(&comp, "run_returns", h.len() as u64, || e.clone(), case),
+                    Ok(Ok(())) => {
+                        let out = std::fs::read_to_string(&ofile).unwrap_or_default();
+                        let mut got: Vec<(String, bool)> = out.lines().filter(|l| !l.is_empty()).filter_map(|l| serde_json::from_str::<Value>(l).ok()).map(|v| (v["request"]["qid"].as_str().unwrap_or("?").to_string(), v.get("error").map_or(false, |e| !e.is_null()))).collect();
+                        got.sort();
+                        let mut want: Vec<(String, bool)> = h.iter().enumerate().filter(|(_, k)| **k < 2).map(|(pos, k)| (format!("r{}", pos), *k == 1)).collect();
+                        want.sort();
+                        if got == want {
+                            st.pass("one_response_per_readable_row");
+                        } else {
+                            st.violation(&comp, "one_response_per_readable_row", h.len() as u64, || format!("responses (row, is an error) {:?}, readable rows {:?}", got, want), case);
+                        }
+                    }
+                }
+                let _ = std::fs::remove_file(&qfile);
+                let _ = std::fs::remove_file(&ofile);
+            }
+        }
+    }
+    st.notes.insert(format!("command-line driver: {} runs over row histories of length 1-4 x chunk size 1-3 x persistence policy", runs));
+}
+
 pub fn run(tier: Tier) -> i32 {
     let info = RunInfo::new("C06", tier);
     let mut st = Stats::new();
@@ -409,6 +505,7 @@ pub fn run(tier: Tier) -> i32 {
         }
     };
     load_balancing(tier, &mut st);
+    cli_histories(tier, &mut st, None);
     st.sample(3, || json!({"load_balancing": {"weights": [null, 5.0, 0.0, 2.0], "parallelism": 3}}));
     if alive {
         if let Err(e) = schedules(tier, &mut st, &mut bounds) {
@@ -444,7 +541,9 @@ pub fn replay(case: &Value) -> i32 {
             // every per-run override and both policies; the whole load-balancing enumeration, which takes a second)
             let c = if case.get("case").is_some() { &case["case"] } else { case };
             let mut st = Stats::new();
-            if c.get("batch").is_some() {
+            if c.get("cli").is_some() {
+                cli_histories(Tier::Thorough, &mut st, Some(c));
+            } else if c.get("batch").is_some() {
                 batch_histories(Tier::Thorough, &mut st, Some(c));
             } else {
                 load_balancing(Tier::Thorough, &mut st);
